@@ -35,10 +35,21 @@ let do_guard fs =
   let (_, r) = guard_current false (List.mapi mk_buf fs) in
   pr "%s\n" (if r then "refused" else "pass")
 
+(* "GE f0 f1 .." = :e without a file name (ec_edit_noarg; the file holds the ghost disk of the current buffer); "GO f0 f1 .." = :e % /
+   :e <own path> (ec_edit_own); both without `!`: "refused" or "pass <modified flag of the current buffer afterwards>" *)
+let do_edit_self own fs =
+  let bufs = List.mapi mk_buf fs in
+  let file = match bufs with b :: _ -> List.concat b.disk | [] -> [] in
+  let (t, r) = if own then ec_edit_own false bufs else ec_edit_noarg false file bufs in
+  if r then pr "refused\n"
+  else pr "pass %d\n" (match t with b :: _ -> if dirty_flag b then 1 else 0 | [] -> -1)
+
 let () = iter_lines (fun l ->
   match words l with
   | "Q" :: fs -> do_quit fs
   | "G" :: fs -> do_guard fs
+  | "GE" :: fs -> do_edit_self false fs
+  | "GO" :: fs -> do_edit_self true fs
   | ["N"] -> pr "%d\n" (int_of_nat nSLOTS)
   | [] -> pr "\n"
   | init :: ops ->
